@@ -44,9 +44,10 @@ Definition ks_new (cl il win : N) : keyset :=
   {| phase := false; timer := None; failures := 0; integ := il; generation := 0;
      slot0 := k0; slot1 := derive_next k0; window := win; derives := 0 |}.
 
+(* self.generation = self.generation.wrapping_add(1) on a u16; the key phase toggles *)
 Definition rotate_phase (s : keyset) : keyset :=
   {| phase := negb (phase s); timer := timer s; failures := failures s; integ := integ s;
-     generation := generation s + 1; slot0 := slot0 s; slot1 := slot1 s;
+     generation := (generation s + 1) mod 65536; slot0 := slot0 s; slot1 := slot1 s;
      window := window s; derives := derives s |}.
 
 Definition derive_and_store_next_key (s : keyset) : keyset :=
@@ -399,43 +400,32 @@ Definition duo_judge (c out : list Z) : bool :=
   judge_dops (zN (nth 0 c 0%Z)) (zN (nth 1 c 0%Z)) jduo0 (duo_ops c) out.
 
 (* ================= component rot: many complete peer-driven updates ================= *)
-(* KeySet.generation is a u16 incremented by rotate_phase: with overflow checks (the harness build,
-   debug builds) the 65536th rotation panics; without them it wraps (only the KeyUpdate event
-   payload reads it).  [rotation_overflows] says that opening this packet would rotate with the
-   counter at u16::MAX. *)
+(* KeySet.generation is a u16 event payload incremented (wrapping) by rotate_phase; no key-phase
+   decision reads it.  This component drives a fresh endpoint through n updates, n up to 2^17. *)
 Definition u16_max : N := 65535.
-Definition rotation_overflows (s : keyset) (g : N) (p : bool) : bool :=
-  (k_gen (slot s p) =? g) && negb (Bool.eqb p (phase s)) && negb (in_progress s)
-  && (generation s =? u16_max).
 
 (* loop state: next generation to deliver, endpoint, cycles completed, packets opened, last
-   generation reported by a rotation, panicked *)
-Record rot_st := { r_i : N; r_s : keyset; r_done : N; r_opened : N; r_last : N; r_panic : bool }.
+   generation reported by a rotation *)
+Record rot_st := { r_i : N; r_s : keyset; r_done : N; r_opened : N; r_last : N }.
 
 (* one cycle: a genuine packet of generation i (phase bit = parity) is opened with pto = 1, then
    on_timeout(1) fires the derivation timer *)
 Definition rot_cycle (r : rot_st) : rot_st :=
-  if r_panic r then r else
   let i := r_i r in
-  let p := N.odd i in
-  if rotation_overflows (r_s r) i p
-  then {| r_i := i; r_s := r_s r; r_done := r_done r; r_opened := r_opened r; r_last := r_last r; r_panic := true |}
-  else
-    let '(s', res) := decrypt_packet (r_s r) i p 1 0 1 in
-    {| r_i := i + 1; r_s := on_timeout s' 1; r_done := r_done r + 1;
-       r_opened := if is_ok res then r_opened r + 1 else r_opened r;
-       r_last := match res with DecOk (Some g) => g | _ => r_last r end;
-       r_panic := false |}.
+  let '(s', res) := decrypt_packet (r_s r) i (N.odd i) 1 0 1 in
+  {| r_i := i + 1; r_s := on_timeout s' 1; r_done := r_done r + 1;
+     r_opened := if is_ok res then r_opened r + 1 else r_opened r;
+     r_last := match res with DecOk (Some g) => g | _ => r_last r end |}.
 
 Definition rot_n (c : list Z) : N := zN (nth 3 c 0%Z) mod 131072.
 Definition rot_final (c : list Z) : rot_st :=
-  N.iter (rot_n c) rot_cycle
-    {| r_i := 1; r_s := ks_cfg c; r_done := 0; r_opened := 0; r_last := 0; r_panic := false |}.
+  N.iter (rot_n c) rot_cycle {| r_i := 1; r_s := ks_cfg c; r_done := 0; r_opened := 0; r_last := 0 |}.
 
-(* output: panicked cycles_completed packets_opened last_reported_generation key_phase active_gen armed derives *)
+(* output: panicked(always 0 here) cycles_completed packets_opened last_reported_generation
+   key_phase active_gen armed derives *)
 Definition rot_run (c : list Z) : list Z :=
   let r := rot_final c in
-  [bz (r_panic r); Nz (r_done r); Nz (r_opened r); Nz (r_last r)] ++ st_small (r_s r) ++ [Nz (derives (r_s r))].
+  [0%Z; Nz (r_done r); Nz (r_opened r); Nz (r_last r)] ++ st_small (r_s r) ++ [Nz (derives (r_s r))].
 
 (* the property: the endpoint survives any number of key updates -- no panic, every genuine
    packet opened, and it ends on generation n with key phase n mod 2 *)
